@@ -48,7 +48,10 @@
      RecvAck(m)           the reply entering the caller's filterPersist.
      RecvFeedback(m)      feedbackReceiver.handle -> gossipRecoveryTransform: per digest
                           `if reps > Threshold {recovered; reps reset}; reps++`;
-                          a recovered digest REPLACES the store entry of its key.
+                          kvStore.apply: a recovered mark concerns ONE operation, it
+                          replaces the store entry of its key only when that entry is
+                          absent or holds the same (version, leaseholder) (store.go as
+                          repaired; the repetition counter is reset either way).
      Drop / Dup           network faults (budget MaxFaults).
      Crash / Restart / Recover(n,p) / RecoverFail
                           DB.Close (or process death) / kv.Open on the same engine /
@@ -59,7 +62,13 @@
      Subscribe(n,s)       DB.OnChange ("p") / NewObservable(IgnoreHostLeaseholder)
                           .OnChange ("f").
 
-   The code as written violates C06 in five windows.  Each is a NAMED DEVIATION; the
+   Deviations (default {}): "StaleFeedbackOverwrite" is the store.go of before the repair
+   - a recovered mark replaced WHATEVER entry its key had, so a late mark for an old
+   version un-infected the key's newer operation.  It is kept as a switch for the as-was
+   design run (which must still produce the stale-feedback counterexample with the
+   "StaleFeedback" window un-masked) and for explaining traces of an unrepaired tree.
+
+   The code as written violates C06 in four windows (five as-was).  Each is a NAMED DEVIATION; the
    set `Masked` lists the windows in which the environment does NOT step (2.5 of
    DESIGN.md): with all of them masked every invariant holds (the exhaustive run);
    un-masking one yields a counterexample, which the check replays as a directed
@@ -69,9 +78,11 @@
                           peer; any older operation when two peers are recovered in turn).
      "VolatileStore"      Crash while the store holds infected operations: they are
                           never gossiped again.
-     "StaleFeedback"      a feedback digest reaching the threshold overwrites a store
-                          entry that already holds a different (newer) operation for the
-                          key, which then stops being gossiped.
+     "StaleFeedback"      (only with the "StaleFeedbackOverwrite" deviation; repaired
+                          since) a feedback digest reaching the threshold overwrites a
+                          store entry that already holds a different (newer) operation
+                          for the key, which then stops being gossiped.  Without the
+                          deviation the environment steps there freely.
      "MultiLease"         two nodes write a key neither has seen (both become
                           leaseholder).  Only then can the unchecked local persist path
                           (direct, or forwarded on a stale digest) replace a newer stored
@@ -96,10 +107,12 @@ CONSTANTS Node,         \* node keys (positive integers)
           WithSubs,     \* model observers
           AllowLag,     \* observers may fall behind (relay / async buffer overflow)
           AckAfter,     \* reply may also be computed after the request was processed
-          Masked        \* masked windows
+          Masked,       \* masked windows
+          Deviations    \* as-was behaviours switched back on (default {})
 
 Windows == {"RecoveryUnchecked", "VolatileStore", "StaleFeedback", "MultiLease", "PrematureRemoval"}
 ASSUME Masked \subseteq Windows
+ASSUME Deviations \subseteq {"StaleFeedbackOverwrite"}
 
 VARIABLES eng, ctr, store, reps, status, pend, hwsnap, net, faults, restarts,
           pendw,                       \* an open aspen tx: lease allocated, not yet committed
@@ -231,12 +244,16 @@ RecvAck(m) ==
     /\ UNCHANGED <<pendw, ctr, reps, status, pend, hwsnap, faults, restarts, written, act>>
 
 Hit(n, d) == reps[n][d.k][d.ver] > Threshold
+SameEntry(n, d) == store[n][d.k].st = "none" \/ SameId(store[n][d.k], d)
+(* kvStore.apply for a recovered mark *)
+MarkApplies(n, d) == "StaleFeedbackOverwrite" \in Deviations \/ SameEntry(n, d)
 FbAllowed(m) ==
     LET n == m.to IN
-    /\ "StaleFeedback" \in Masked =>
-          \A d \in m.ops : Hit(n, d) => (store[n][d.k].st = "none" \/ SameId(store[n][d.k], d))
+    /\ ("StaleFeedbackOverwrite" \in Deviations /\ "StaleFeedback" \in Masked) =>
+          \A d \in m.ops : Hit(n, d) => SameEntry(n, d)
     /\ "PrematureRemoval" \in Masked =>
-          \A d \in m.ops : Hit(n, d) => \A p \in Node : eng[p][d.k].var # "none" /\ ~Newer(d, eng[p][d.k])
+          \A d \in m.ops : (Hit(n, d) /\ MarkApplies(n, d)) =>
+                \A p \in Node : eng[p][d.k].var # "none" /\ ~Newer(d, eng[p][d.k])
 RecvFeedback(m) ==
     /\ m.t = "fb" /\ status[m.to] # "down"
     /\ FbAllowed(m)
@@ -246,7 +263,7 @@ RecvFeedback(m) ==
                          IF \E d \in m.ops : d.k = k /\ d.ver = v
                          THEN (IF \E d \in H : d.k = k /\ d.ver = v THEN 1 ELSE @[k][v] + 1)
                          ELSE @[k][v]]]]
-          /\ store' = [store EXCEPT ![n] = PutStore(@, H, "rec")]
+          /\ store' = [store EXCEPT ![n] = PutStore(@, {d \in H : MarkApplies(n, d)}, "rec")]
     /\ net' = Take(net, m)
     /\ UNCHANGED <<pendw, eng, ctr, status, pend, hwsnap, faults, restarts, written, got, act, seen, chg, lag, bad>>
 
@@ -351,6 +368,12 @@ NeverStale == "stale" \notin bad
 CompleteWhileKeepingUp == \A n \in Node : (act[n]["p"] /\ ~lag[n]["p"]) => seen[n]["p"] = chg[n]["p"]
 HostFilterExact == \A n \in Node : (act[n]["f"] /\ ~lag[n]["f"]) =>
                        seen[n]["f"] = {o \in chg[n]["f"] : o.lh # n}
+
+(* vacuity probe: a deliverable feedback whose mark reaches the threshold over a DIFFERENT
+   (newer) store entry - the situation the repair of store.go is about - is reachable
+   (run with this as an invariant: TLC must report it violated).                       *)
+NoStaleHit == \A m \in BagToSet(net) :
+                 ~(m.t = "fb" /\ status[m.to] # "down" /\ \E d \in m.ops : Hit(m.to, d) /\ ~SameEntry(m.to, d))
 
 (* liveness form, checked only without constraints on small instances              *)
 Converged == \A n \in Node, k \in Key : eng[n][k] = Winner(written, k)
